@@ -419,7 +419,8 @@ int main(int argc, char **argv) {
     o << "{\"name\":\"" << esc(G.getName()) << "\",\"type\":\"" << esc(tstr(G.getValueType()))
       << "\",\"constant\":" << (G.isConstant() ? "true" : "false")
       << ",\"internal\":" << (G.hasLocalLinkage() ? "true" : "false")
-      << ",\"declaration\":" << (G.isDeclaration() ? "true" : "false");
+      << ",\"declaration\":" << (G.isDeclaration() ? "true" : "false")
+      << ",\"thread_local\":" << (G.isThreadLocal() ? "true" : "false");
     if (G.hasInitializer()) {
       o << ",\"init\":";
       emitOperand(o, G.getInitializer(), empty);
